@@ -18,6 +18,7 @@ TRANSLATORS = [
     ('c06_fourier', 'py2coq_c06', 'regenerate'),
     ('helpers', 'py2coq_helpers', 'regenerate'),
     ('c07_smoothing', 'py2coq_c07', 'regenerate'),
+    ('c15_stockwell', 'py2coq_c15', 'regenerate'),
 ]
 
 
